@@ -14,6 +14,7 @@ import (
 	"fmt"
 	"io"
 	"os"
+	"runtime"
 	"sort"
 	"strconv"
 	"strings"
@@ -306,12 +307,25 @@ loop:
 		consumed++
 	}
 	if returned == "" {
-		// give the pump a moment to return on its own (after a second signal or an encode error)
-		select {
-		case err := <-done:
-			returned = verifErr(err)
-		case <-time.After(20 * time.Millisecond):
-			returned = "running"
+		// the pump either returns on its own (after a second signal or an encode error) or parks
+		// in its select again: decide by looking at its goroutine, not by a timeout
+		deadline := time.Now().Add(30 * time.Second)
+		for returned == "" {
+			select {
+			case err := <-done:
+				returned = verifErr(err)
+			default:
+				if verifPumpParked() || time.Now().After(deadline) {
+					select {
+					case err := <-done:
+						returned = verifErr(err)
+					default:
+						returned = "running"
+					}
+				} else {
+					time.Sleep(50 * time.Microsecond)
+				}
+			}
 		}
 	}
 	parts := make([]string, len(encoded))
@@ -319,6 +333,18 @@ loop:
 		parts[i] = strconv.FormatUint(s, 10)
 	}
 	return fmt.Sprintf("ok consumed=%d returned=%s stopped=%v encoded=%d %s", consumed, returned, atk.VerifStopped(), len(encoded), strings.Join(parts, ","))
+}
+
+// verifPumpParked reports whether the processAttack goroutine is blocked in its select.
+func verifPumpParked() bool {
+	buf := make([]byte, 1<<16)
+	buf = buf[:runtime.Stack(buf, true)]
+	for _, g := range strings.Split(string(buf), "\n\n") {
+		if strings.Contains(g, "main.processAttack(") {
+			return strings.HasPrefix(g[strings.Index(g, "[")+1:], "select")
+		}
+	}
+	return false
 }
 
 func verifErr(err error) string {
